@@ -42,6 +42,12 @@ constexpr nterm<int> list("list");
         list() >= val(0), \
         list(list, any) >= [](int n, skip){ return n + 1; }, \
         list(list, rest) >= [](int n, const auto& r){ return n + 100 * int(r.get_value().size()); })'''),
+ 'anyonly': dict(inputs=['', 'x', '#', 'abc', 'x y', 'a b c d'], code=r'''
+constexpr char dot_pattern[] = "."; constexpr regex_term<dot_pattern> dot("dot");
+constexpr nterm<int> cnt("cnt");
+#define PARSER_ARGS cnt, terms(dot), nterms(cnt), rules( \
+        cnt() >= val(0), \
+        cnt(cnt, dot) >= [](int n, skip){ return n + 1; })'''),
  'nullable': dict(inputs=['', 'a', 'ab', 'b', 'aab', 'ba', 'abb', 'c'], code=r'''
 constexpr nterm<int> S("S"); constexpr nterm<int> A("A"); constexpr nterm<int> B("B");
 #define PARSER_ARGS S, terms('a', 'b'), nterms(S, A, B), rules( \
